@@ -5,3 +5,7 @@ import Helm.Props.C06
 #print axioms Helm.Props.C06.uninstall_dry_run_writes_nothing
 #print axioms Helm.Props.C06.install_dry_run_cluster
 #print axioms Helm.Props.C06.upgrade_dry_run_cluster
+#print axioms Helm.Props.C06.install_any_dry_run_spelling
+#print axioms Helm.Props.C06.upgrade_any_dry_run_spelling
+#print axioms Helm.Props.C06.client_only_sends_nothing
+#print axioms Helm.Props.C06.dry_run_spellings_are_the_models
